@@ -62,6 +62,8 @@ class World:
         self.loop = loop
         self.chooser = chooser
         self.log: list = []  # (vt_ns, event, ...) – spies and actors append here
+        self.fail_calls: set = set()  # {(op name, n)}: the n-th top-level call of op raises ConnectionError
+        self._call_counts: dict = {}
         self.server = None
         self.conns: list[Connection] = []
         self.brokers = []
@@ -144,6 +146,7 @@ class World:
     def _mkspy(self, name, inner, client):
         log = self.log
         loop = self.loop
+        world = self
 
         async def spy(key, *a, **kw):
             params = a[1] if len(a) > 1 else kw.get("params")
@@ -152,6 +155,13 @@ class World:
                    params_view(params) if name in ("enqueue", "requeue") else None, None, depth,
                    a[0] if a else kw.get("payload")]
             log.append(rec)
+            if depth == 0 and world.fail_calls:
+                n = world._call_counts.get(name, 0)
+                world._call_counts[name] = n + 1
+                if (name, n) in world.fail_calls:
+                    rec[6] = ("exc", "ConnectionError", loop._ns)
+                    log.append([loop._ns, "ret", name, key.id_, client, "ConnectionError"])
+                    raise ConnectionError(f"injected fault: {name} #{n}")
             _SPY_DEPTH.set(depth + 1)
             try:
                 r = await inner(key, *a, **kw)
